@@ -7,8 +7,8 @@
 (*               flushes is the encoding of the input), and the same for the second stage (XalanOutputStream)  *)
 (*   Bounded     the buffer never holds more than BufSize units and m_bufferRemaining = BufSize - position     *)
 (*   NoSplit     no chunk starts or ends inside a multi-unit sequence (UTF-8 sequence, surrogate pair,          *)
-(*               atomic character reference) - except the named deviation KD_unitwiseFlush, which is shown      *)
-(*               real by DeviationsAreReal                                                                     *)
+(*               atomic character reference) - except the named deviation KD_unitwiseFlush ("utf16" only),      *)
+(*               which is shown real by DeviationsAreReal                                                      *)
 (* The same model is the generator of the boundary cases: `hist` (hidden by the VIEW) is the shortest            *)
 (* operation history reaching each transition of the graph (buffer exactly full, one unit short, sequence        *)
 (* straddling the end); `tlc -dump` exports them and the props script scales them to the real buffer size.       *)
@@ -56,7 +56,7 @@ Deviates == KD_unitwiseFlush(Fam, [buf |-> last.pre, rem |-> last.prerem], last.
 Inherited == last.pre # <<>> /\ last.pre[1][1] > 1            \* the buffer already starts with the second half of a split sequence
 NoSplit ==
   last.op.k # "init" =>
-    IF Fam \in {"utf8", "other"}
+    IF Fam \in {"utf8", "other", "legacy"}
     THEN /\ \A i \in DOMAIN last.fl : Whole(last.fl[i])
          /\ \A i \in DOMAIN last.calls : Whole(last.calls[i])
     ELSE (~Deviates /\ ~Inherited) => \A i \in DOMAIN last.fl : Whole(last.fl[i])
